@@ -1,7 +1,7 @@
 (* C11 — the model does not fall into OOB on well-formed inputs: the theorems about
    [... = Ok t'] are not vacuous for valid tables (references in range). *)
 From Coq Require Import List ZArith Bool Lia Permutation Sorted ZifyBool.
-From TskVerif Require Import Base.Common Gen.Generated C11.Model C11.Spec C11.IntervalProofs
+From TskVerif Require Import Base.Common C11.Model C11.Spec C11.IntervalProofs
      C11.SitesProofs.
 Import ListNotations.
 Open Scope Z_scope.
